@@ -109,6 +109,39 @@ def nesting_texts():
     return out
 
 
+def extra_texts(tier):
+    """(family, texts): specialization shapes, identifier spellings, accepted twins of the type-rendering programs, nesting of
+    literals whose levels have different but unifiable types"""
+    out = {}
+    spec = []
+    pre = 'fn sp(a: int, b: int)->int{ a + b } fn sp(a: str)->int{ 1 } fn sg<T>(a: T, b: T)->T{ a } '
+    tys = ['$', 'int', 'str', 'Sequence<int>', 'T']
+    for m in range(0, 5):
+        for ts in itertools.product(tys[:3] if tier == 'quick' else tys, repeat=m):
+            if m >= 4 and len(set(ts)) > 2:
+                continue
+            for n in range(0, 4):
+                for fname in ('sp', 'sg', 'len', 'nosuch'):
+                    spec.append(pre + 'let v = %s{%s}(%s);' % (fname, ', '.join(ts), ', '.join(['1'] * n)) if m else pre + 'let v = %s(%s);' % (fname, ', '.join(['1'] * n)))
+                    if m:
+                        spec.append(pre + 'let v = %s{%s};' % (fname, ', '.join(ts)))
+    out['specialization'] = list(dict.fromkeys(spec))
+    from .c03 import IDENTS
+    ids = IDENTS + ['item18446744073709551615', 'item18446744073709551614', 'item99999999999', 'item4294967295', 'item1099511627776', 'item' + '9' * 40, 'item0' * 3, 'x' * 5000, '_' * 300]
+    out['identifiers'] = ['let %s = 1; let q = %s + 1;' % (i, i) for i in ids] + ['fn f(%s: int)->int{ %s } let t = (1, 2); let q = t::%s;' % (i, i, i) for i in ids] + \
+        ['struct K(%s: int) let k = K(1); let q = k::%s;' % (i, i) for i in ids]
+    nest = []
+    for d in ((1, 2, 3, 8, 16, 24, 32, 48) if tier == 'quick' else range(1, 65)):
+        nest.append('let a = %s[1]%s;' % ('[' * d, ', []]' * d))
+        nest.append('let a = %s[1]%s;' % ('[[], ' * d, ']' * d))
+        nest.append('let a = %ssome(1)%s;' % ('[' * d, ', none()]' * d) if False else 'let a = %s1%s;' % ('some(' * d, ')' * d))
+        nest.append('let a = %s[1]%s;' % ('if(true, ' * d, ', [])' * d))
+        nest.append('let a = %s(1, [])%s;' % ('[' * d, ', (1, [2])]' * d))
+        nest.append('let a = %s1%s;' % ('[(' * d, ', [])]' * d))
+    out['mixed-nesting'] = nest
+    return out
+
+
 NEVER_EVALUATED = [
     'let a = display(1);', 'fn f()->int{ f() } let x = f();', 'fn f(n: int)->int{ f(n + 1) + 1 } let x = f(0);', 'let a = [1][5];',
     'let a = 1 / 0;', 'let a = count().to_array();', 'let a = random();', 'let a = now();', 'let a = regex("(");', 'let a = sleep(seconds(100.0));',
@@ -152,6 +185,7 @@ def type_render_cases():
             t = '%s<%s>' % (name, ', '.join(combo))
             out.append((prelude + 'let v: Sequence<int> = %s(%s);' % (name, ', '.join(tys[c] for c in combo)), t))
             out.append((prelude + 'let v: %s = [1];' % t, t))
+            out.append((prelude + 'let ok: %s = %s(%s); let ok2: Sequence<%s> = [%s(%s), ok];' % (t, name, ', '.join(tys[c] for c in combo), t, name, ', '.join(tys[c] for c in combo)), None))
             out.append((prelude + 'fn f(x: %s)->Sequence<int>{ x }' % t, t))
     for combo in itertools.permutations(tys, 2):
         t = 'U2<%s>' % ', '.join(combo)
@@ -314,6 +348,9 @@ def run(tier):
             elif want[0] == 'float' and not (isinstance(got, float) and struct.pack('<d', got) == struct.pack('<d', want[1])):
                 rep.fail(Failure(PROP, 'C12|literal-value|%s|wrong-value' % l, {'literal': l}, want, repr(got), job))
     run_family(rep, 'nesting', nesting_texts(), 1)
+    for fam, texts in extra_texts(tier).items():
+        rep.bounds[fam + '_texts'] = len(texts)
+        run_family(rep, fam, texts, 1 if fam == 'mixed-nesting' else 100)
     ex = excerpt_texts(tier)
     rep.bounds['error_excerpt_texts'] = len(ex)
     run_family(rep, 'error-excerpt', ex, 1 if False else 200)
@@ -323,6 +360,11 @@ def run(tier):
         judge(rep, 'type-rendering', [t for t, f in w], res)
         for (t, frag), (cls, text, fx) in zip(w, res):
             key = hashlib.sha1(t.encode()).hexdigest()[:12]
+            if frag is None:
+                # the accepted twin: the same types in the same order are the same type, every time
+                if cls != 'ok':
+                    rep.fail(Failure(PROP, 'C12|type-rendering|%s|well-typed-twin-rejected' % key, {'text': t}, 'accepted', '%s %s' % (cls, text[:200]), {'id': 0, 'limits': {}, 'steps': [{'feed': t}]}))
+                continue
             if not cls.startswith('cerr'):
                 continue
             if frag not in text:
